@@ -163,9 +163,9 @@ def splitAttrpathF (t : Text) : Except Err (List Text) :=
       | .error e => .error e
 
 /-- a single-segment attribute name: the splitter of `binding._split_attrpath` returns it whole;
-    it is not empty and has no line break in it -/
+    it is not empty, has no line break in it and is not the token `;` -/
 def nameOk (n : Text) : Bool :=
-  decide (splitAttrpathF n = .ok [n]) && !n.isEmpty && !containsNL n
+  decide (splitAttrpathF n = .ok [n]) && !n.isEmpty && !containsNL n && n != [';']
 
 def isLineCmt (t : Text) : Bool := startsWith ['#'] t
 
